@@ -64,19 +64,6 @@ theorem client_eq (n : Node) (c : Cmd) :
   · simp only [ha, if_true]
   · simp only [ha]; rfl
 
-theorem ttlAt_eq (s : State) (k : Nat) : ttlAt s k = oldDl (purge s 0) k := by
-  simp only [ttlAt, oldDl, get_view]
-  cases NMap.get (purge s 0) k with
-  | none => rfl
-  | some e => simp [toV_zero]
-
-theorem oldDl_none_of_ttl {s : State} {k : Nat} (h : (ttlAt s k).isSome = false) :
-    oldDl (purge s 0) k = none := by
-  rw [← ttlAt_eq]
-  cases hx : ttlAt s k with
-  | none => rfl
-  | some _ => simp [hx] at h
-
 theorem ginv_other {n : Node} (h : GInv n) (c : Cmd)
     (hrec : ∀ rs post, (record rs post c).1 = rs)
     (hv : view (execStep n.exec c).1 0 = view n.exec 0) : GInv (n.client c).1 := by
@@ -96,56 +83,20 @@ theorem ginv_client {n : Node} (h : GInv n) (c : Cmd) (hs : unsupported n (.clie
     GInv (n.client c).1 := by
   have hok := ok_of_ginv h
   cases c with
-  | set k v cond e g =>
-    rw [client_eq]
-    apply ginv_of_ok'
-    apply ok_set hok
-    simp only [unsupported] at hs
-    cases e with
-    | none => trivial
-    | ex x => trivial
-    | px x => trivial
-    | exat x => simp at hs
-    | pxat x => simp at hs
-    | keepttl =>
-      simp only [expRecorded]
-      apply oldDl_none_of_ttl
-      cases hx : (ttlAt n.exec k).isSome with
-      | false => rfl
-      | true => simp [hx] at hs
+  | set k v cond e g => rw [client_eq]; exact ginv_of_ok' (ok_set hok k v cond e g)
   | del ks => rw [client_eq]; exact ginv_of_ok' (ok_del hok ks)
   | getset k v => rw [client_eq]; exact ginv_of_ok' (ok_getset hok k v)
   | hset k fvs => rw [client_eq]; exact ginv_of_ok' (ok_hset hok k fvs)
   | hdel k fs => rw [client_eq]; exact ginv_of_ok' (ok_hdel hok k fs)
   | hincrby k f d => rw [client_eq]; exact ginv_of_ok' (ok_hincrby hok k f d)
-  | incr k =>
-    rw [client_eq]
-    refine ginv_of_ok' (ok_incr hok k (oldDl_none_of_ttl ?_))
-    simp only [unsupported] at hs
-    cases hx : (ttlAt n.exec k).isSome <;> simp_all
-  | decr k =>
-    rw [client_eq]
-    refine ginv_of_ok' (ok_decr hok k (oldDl_none_of_ttl ?_))
-    simp only [unsupported] at hs
-    cases hx : (ttlAt n.exec k).isSome <;> simp_all
-  | incrby k d =>
-    rw [client_eq]
-    refine ginv_of_ok' (ok_incrby hok k d (oldDl_none_of_ttl ?_))
-    simp only [unsupported] at hs
-    cases hx : (ttlAt n.exec k).isSome <;> simp_all
-  | decrby k d =>
-    rw [client_eq]
-    refine ginv_of_ok' (ok_decrby hok k d (oldDl_none_of_ttl ?_))
-    simp only [unsupported] at hs
-    cases hx : (ttlAt n.exec k).isSome <;> simp_all
-  | append k v =>
-    rw [client_eq]
-    refine ginv_of_ok' (ok_append hok k v (oldDl_none_of_ttl ?_))
-    simp only [unsupported] at hs
-    cases hx : (ttlAt n.exec k).isSome <;> simp_all
+  | incr k => rw [client_eq]; exact ginv_of_ok' (ok_incr hok k)
+  | decr k => rw [client_eq]; exact ginv_of_ok' (ok_decr hok k)
+  | incrby k d => rw [client_eq]; exact ginv_of_ok' (ok_incrby hok k d)
+  | decrby k d => rw [client_eq]; exact ginv_of_ok' (ok_decrby hok k d)
+  | append k v => rw [client_eq]; exact ginv_of_ok' (ok_append hok k v)
   | _ =>
     apply ginv_other h _ (fun _ _ => rfl)
-    simp only [unsupported] at hs
+    simp only [unsupported, recorded, Bool.false_eq_true, if_false] at hs
     split at hs
     · assumption
     · cases hs
@@ -155,8 +106,46 @@ theorem ginv_client {n : Node} (h : GInv n) (c : Cmd) (hs : unsupported n (.clie
 theorem execStep_purge (s : State) (c : Cmd) : execStep (purge s 0) c = execStep s c := by
   simp only [execStep, step, purge_idem]
 
+theorem get_purge_cases {s : State} (hw : NMap.WF s) (k : Nat) :
+    NMap.get (purge s 0) k = NMap.get s k ∨ NMap.get (purge s 0) k = none := by
+  rw [get_purge hw]
+  cases NMap.get s k with
+  | none => left; rfl
+  | some e =>
+    by_cases hl : live 0 e = true
+    · left; simp [Option.filter, hl]
+    · right; simp [Option.filter, hl]
+
+theorem nonHashAt_purge {s : State} (hw : NMap.WF s) (k : Nat) :
+    nonHashAt (purge s 0) k = true → nonHashAt s k = true := by
+  intro h
+  rcases get_purge_cases hw k with hg | hg
+  · simpa only [nonHashAt, hg] using h
+  · simp [nonHashAt, hg] at h
+
+theorem get_purge_none_of_nonHash {s : State} (hw : NMap.WF s) {k : Nat}
+    (h1 : nonHashAt s k = true) (h2 : nonHashAt (purge s 0) k = false) :
+    NMap.get (purge s 0) k = none := by
+  rcases get_purge_cases hw k with hg | hg
+  · simp only [nonHashAt, hg] at h2
+    simp only [nonHashAt] at h1
+    rw [h1] at h2; cases h2
+  · exact hg
+
+theorem rematHash2_purge (s : State) (k : Nat) (h : NMap Lww) :
+    (rematHash2 s k h = s ∧ rematHash2 (purge s 0) k h = purge s 0) ∨
+    rematHash2 s k h = rematHash2 (purge s 0) k h := by
+  simp only [rematHash2]
+  cases (liveFields h).isEmpty with
+  | true =>
+    simp only [if_true]
+    cases (tombFields h).isEmpty with
+    | true => left; exact ⟨rfl, rfl⟩
+    | false => right; simp only [Bool.false_eq_true, if_false, execStep_purge]
+  | false => right; simp only [Bool.false_eq_true, if_false, execStep_purge]
+
 /-- re-materialisation starts by purging, unless it does nothing at all -/
-theorem remat_purge (s : State) (k : Nat) (m : RV) :
+theorem remat_purge {s : State} (hI : Inv s) (k : Nat) (m : RV) :
     (rematerialise s k m = s ∧ rematerialise (purge s 0) k m = purge s 0) ∨
     rematerialise s k m = rematerialise (purge s 0) k m := by
   have hl : (rematLww s k m = s ∧ rematLww (purge s 0) k m = purge s 0) ∨
@@ -174,14 +163,27 @@ theorem remat_purge (s : State) (k : Nat) (m : RV) :
       | false => left; exact ⟨rfl, rfl⟩
   cases hc : m.crdt with
   | hash h =>
-    simp only [rematerialise, hc, rematHash]
-    cases (liveFields h).isEmpty with
+    simp only [rematerialise, hc, rematHash_eq]
+    cases h1 : nonHashAt s k with
+    | false =>
+      have h2 : nonHashAt (purge s 0) k = false := by
+        cases hx : nonHashAt (purge s 0) k with
+        | false => rfl
+        | true => rw [nonHashAt_purge hI.1 k hx] at h1; cases h1
+      simp only [h2, Bool.false_eq_true, if_false]
+      exact rematHash2_purge s k h
     | true =>
+      right
       simp only [if_true]
-      cases (tombFields h).isEmpty with
-      | true => left; exact ⟨rfl, rfl⟩
-      | false => right; simp only [Bool.false_eq_true, if_false, execStep_purge]
-    | false => right; simp only [Bool.false_eq_true, if_false, execStep_purge]
+      cases h2 : nonHashAt (purge s 0) k with
+      | true => simp only [if_true, execStep_purge]
+      | false =>
+        simp only [Bool.false_eq_true, if_false]
+        have hnone := get_purge_none_of_nonHash hI.1 h1 h2
+        have : (execStep s (.del [k])).1 = purge s 0 := by
+          rw [← execStep_purge, execStep_of_nodead (nodead_purge s), exec_del1 (wf_purge 0 hI.1)]
+          exact erase_of_get_none (wf_purge 0 hI.1) hnone
+        rw [this]
   | lww r => simpa only [rematerialise, hc] using hl
   | gcounter c => simpa only [rematerialise, hc] using hl
   | pncounter p n => simpa only [rematerialise, hc] using hl
@@ -191,16 +193,6 @@ theorem remat_purge (s : State) (k : Nat) (m : RV) :
 theorem deliver_eq (n : Node) (k : Nat) (d : RV) :
     n.deliver k d = { exec := rematerialise n.exec k (mergedVal n.rs k d), rs := n.rs.applyRemote k d } := by
   simp only [Node.deliver, get_remote]
-
-theorem lookupHash_wrong_holds {s : State} {k : Nat} (h : lookupHash (purge s 0) k = .wrong) :
-    holdsNonHash s k = true := by
-  simp only [holdsNonHash, get_view]
-  simp only [lookupHash] at h
-  cases hg : NMap.get (purge s 0) k with
-  | none => simp [hg] at h
-  | some e =>
-    obtain ⟨val, dl⟩ := e
-    cases val <;> simp_all [toV]
 
 theorem ginv_deliver {n : Node} (h : GInv n) (k : Nat) (d : RV)
     (hs : unsupported n (.deliver k d) = none) : GInv (n.deliver k d) := by
@@ -219,10 +211,7 @@ theorem ginv_deliver {n : Node} (h : GInv n) (k : Nat) (d : RV)
     | hash hm =>
       simp only [hc] at hs'
       by_cases hp : hm.all (fun p => Lww.proper p.2) = true
-      · simp only [hp, not_true_eq_false, if_false] at hs'
-        refine ok_deliver_hash hok k d hd hm hc hp (fun _ hw => ?_)
-        have := lookupHash_wrong_holds hw
-        simp [this] at hs'
+      · exact ok_deliver_hash hok k d hd hm hc hp
       · simp [hp] at hs'
     | lww r =>
       simp only [hc] at hs'
@@ -238,7 +227,7 @@ theorem ginv_deliver {n : Node} (h : GInv n) (k : Nat) (d : RV)
     | pncounter p q => simp [hc] at hs'
     | gset s => simp [hc] at hs'
     | orset e q => simp [hc] at hs'
-  rcases remat_purge n.exec k (mergedVal n.rs k d) with ⟨h1, h2⟩ | h1
+  rcases remat_purge h.inv k (mergedVal n.rs k d) with ⟨h1, h2⟩ | h1
   · rw [h1]
     rw [h2] at hOk
     exact ginv_of_ok (view_purge n.exec 0).symm h.inv hOk
